@@ -44,6 +44,10 @@ type FileOpts struct {
 	SmallDBs     bool // db numbers 0..15 only
 	ModuleFloat  bool // allow the FLOAT opcode inside module-aux data
 	FiniteScores bool // no +-inf scores
+	UniqueKeys   bool // key names unique across all databases
+	NoEmpty      bool // no empty collections (they cannot exist in a live Redis)
+	SingleHint   bool // never both IDLE and FREQ on one key (Redis saves one or the other)
+	KeyGen       *rapid.Generator[[]byte]
 }
 
 func dbNumber(t *rapid.T, small bool) uint32 {
@@ -144,11 +148,22 @@ func DrawFile(t *rapid.T, o FileOpts) *File {
 		meta()
 		nk := rapid.IntRange(0, o.MaxKeys).Draw(t, "nkeys")
 		for k := 0; k < nk; k++ {
-			key := Elem().Draw(t, "key")
-			if usedKeys[fmt.Sprint(curDB, ":", string(key))] {
+			var key []byte
+			if o.KeyGen != nil {
+				key = o.KeyGen.Draw(t, "key")
+			} else {
+				key = Elem().Draw(t, "key")
+			}
+			uk := func(k []byte) string {
+				if o.UniqueKeys {
+					return string(k)
+				}
+				return fmt.Sprint(curDB, ":", string(k))
+			}
+			if usedKeys[uk(key)] {
 				key = append(append([]byte{}, key...), []byte(fmt.Sprintf("#%d.%d", d, k))...)
 			}
-			usedKeys[fmt.Sprint(curDB, ":", string(key))] = true
+			usedKeys[uk(key)] = true
 			rec := Record{DB: curDB, Key: key}
 			// expiry / idle / freq opcodes
 			switch rapid.IntRange(0, 5).Draw(t, "exp") {
@@ -169,6 +184,9 @@ func DrawFile(t *rapid.T, o FileOpts) *File {
 				op("expire-ms")
 			}
 			hints := rapid.IntRange(0, 7).Draw(t, "hints")
+			if o.SingleHint && hints == 2 {
+				hints = 0
+			}
 			order := rapid.Bool().Draw(t, "hintorder")
 			idle := func() {
 				v := rapid.Uint32Range(1, math.MaxUint32).Draw(t, "idle")
@@ -204,6 +222,9 @@ func DrawFile(t *rapid.T, o FileOpts) *File {
 				enc = StreamEnc(t, f.Labels)
 			} else {
 				v := DrawValue(t, "", o.MaxElems)
+				if o.NoEmpty && v.Kind != "string" && v.Len() == 0 {
+					v = Value{Kind: "string", Str: []byte("was-empty")}
+				}
 				if o.FiniteScores && v.Kind == "zset" {
 					for i := range v.ZSet {
 						if math.IsInf(v.ZSet[i].Score, 0) {
